@@ -128,6 +128,8 @@ class RefCache:
         k = g('key')
         if op == 'reopen':
             return 'opened'
+        if op in ('set', 'add') and isinstance(g('tag'), (list, dict)):
+            raise Raise('ProgrammingError')         # a tag SQLite cannot bind: the call raises inside its transaction, nothing is stored
         if op in ('set', 'setitem'):
             self._store(k, call['value'], self._exp(call) if op == 'set' else None, g('tag') if op == 'set' else None)
             self._cull()
@@ -404,7 +406,7 @@ def ref_result(ref, call):
 
 def observed_of(rec):
     if rec.get('exc'):
-        return ('exc', rec['exc'])
+        return ('exc', 'ProgrammingError' if rec['exc'] in ('ProgrammingError', 'InterfaceError') else rec['exc'])
     r = rec.get('result')
     if rec.get('op') == 'get' and rec.get('call', {}).get('meta') and isinstance(r, list) and len(r) == 3:
         # get(expire_time=True, tag=True): value, whether it has an expiry (the instant depends on the clock reading of the set), tag
